@@ -83,6 +83,27 @@ void h_c17_assign(void)
     __CPROVER_assert(osto == (sto != 0) && ocon == (con != 0), "c17.assign.other-flags-untouched");
     REACH;
 }
+void w_c17_assign_chain(int n, int k0, int k1, int k2, int k3, unsigned g0, unsigned g1, unsigned g2, unsigned g3, int sym, int sto, int con, int* osym, int* osto, int* ocon);
+/* bounded: the whole REAL visitAssignment on update lists of <= 4 elements (parser shape) */
+static void assign_chain(int n)
+{
+    int k[4], sym, sto, con, osym, osto, ocon; unsigned g[4];
+    for (int i = 0; i < 4; i++) __CPROVER_assume(VALID_KIND(k[i]) && k[i] != K_COMMA && g[i] < 4);
+    w_c17_assign_chain(n, k[0], k[1], k[2], k[3], g[0], g[1], g[2], g[3], sym, sto, con, &osym, &osto, &ocon);
+    _Bool bad = 0;
+    for (int i = 0; i < 4; i++)
+        if (i < n && k[i] == K_ASSIGN && FP(g[i]) && !HYB(g[i])) bad = 1;
+    __CPROVER_assert(!bad || !osym, "c17.assign.fp-assignment-without-hybrid-in-any-element-of-the-update-list-clears-symbolic");
+    __CPROVER_assert(bad || osym == (sym != 0), "c17.assign.lists-without-such-an-element-leave-symbolic");
+    MONO("c17.assign_chain");
+    REACH;
+}
+/* one entry per list length: the tree shape is concrete, so the real recursion / iteration unfolds deterministically */
+void h_c17_assign_chain(void)
+{
+    int n;
+    if (n == 1) assign_chain(1); else if (n == 2) assign_chain(2); else if (n == 3) assign_chain(3); else assign_chain(4);
+}
 void h_c17_location(void)
 {
     int empty, kind, nsub, k0, k1, tk0, tk1, v0, v1, sym, sto, con, osym, osto, ocon; unsigned g0, g1, cw; double d0, d1;
